@@ -76,7 +76,8 @@ def rand_reads(rng, aset, n):
         elif r < 0.8:
             core_ = U.rand_seq(rng, rng.randint(0, 12), "ACGT")
         elif r < 0.9:
-            core_ = U.mutate(rng, a["seq"], 1, "ACGTN", "s")
+            # an N at the anchored end (the N fallback of the index); with indels also shifted copies, and a tail behind them
+            core_ = U.mutate(rng, a["seq"], rng.choice([0, 1, 1, 2]), "ACGTN", "sid" if a["indels"] and rng.random() < 0.6 else "s")
             if "N" not in core_ and core_:
                 p = rng.randrange(len(core_))
                 core_ = core_[:p] + "N" + core_[p + 1:]
@@ -142,21 +143,23 @@ def occurrences(aset, read):
 def oracle(aset, read, res, one_by_one, shuffled):
     """res, one_by_one, shuffled: match tuples (rank, rstart, rstop, errors, score) or None; -> list of problems"""
     probs = []
-    if set(read) - set("ACGT"):
-        return probs
     n = len(read)
+    ru = read.upper()   # the index looks at the upper-cased read; an N in the read matches nothing (read wildcards are off)
     if res is not None:
+        # first sentence of the property: every reported match is a genuine anchored occurrence -- for all reads
         i, rs, re, e, sc = res
         a = aset["adapters"][i]
         k = k_of(a["seq"], a["rate"])
         if not (0 <= rs <= re <= n) or (aset["prefix"] and rs != 0) or (not aset["prefix"] and re != n):
             probs.append("coordinates outside the read or not anchored")
         else:
-            d = dist(a, read[rs:re])
+            d = dist(a, ru[rs:re])
             if d is None or d > k:
-                probs.append("the removed affix is not within the adapter's tolerance")
+                probs.append("the removed affix is not within the adapter's tolerance" + (" (read with N)" if "N" in ru else ""))
             elif d != e:
-                probs.append("reported errors are not the exact distance")
+                probs.append("reported errors are not the exact distance" + (" (read with N)" if "N" in ru else ""))
+    if set(read) - set("ACGT"):
+        return probs
     occ = occurrences(aset, read)
     if len(occ) == 1:
         (i, _), = occ.items()
